@@ -31,6 +31,10 @@ func BuildAnnotationForMethod(context *parser.ModifierContext, method *core_doma
 	if context.ClassOrInterfaceModifier() != nil {
 		if reflect.TypeOf(context.ClassOrInterfaceModifier().GetChild(0)).String() == "*parser.AnnotationContext" {
 			annotationCtx := context.ClassOrInterfaceModifier().GetChild(0).(*parser.AnnotationContext)
+			// the qualified form `java.lang.@Deprecated String m()` carries no plain annotation name
+			if annotationCtx.QualifiedName() == nil {
+				return
+			}
 
 			annotation := BuildAnnotation(annotationCtx)
 			method.Annotations = append(method.Annotations, annotation)
